@@ -4,6 +4,10 @@ braces: one token per word, line = 1 + newlines before it.
 -/
 import CaddyModel.C17.FragLemmas
 
+-- (case-split proofs share one simp set; an argument unused in some branch is not worth a warning that
+-- drowns real errors in the build log)
+set_option linter.unusedSimpArgs false
+
 namespace CaddyModel.C17
 
 /-- a character of a word of the fragment, as the lexer sees it -/
